@@ -19,7 +19,7 @@ type PropConfig struct {
 	StoreKeys map[string]string `json:"store_keys"`
 	CompSorts map[string]string `json:"comp_sorts"`
 	Level     string            `json:"level"`
-	Lemmas    []string          `json:"lemmas"`
+	Refines   []RefineRule      `json:"refines"` // lemma layer: which operations a trusted ghost transition stands for
 	Inventory []InventoryRule   `json:"inventory"`
 	Assume    []string          `json:"assumptions"`
 	Bounded   []BoundedCheck    `json:"bounded"`
@@ -628,6 +628,37 @@ func writeEvidence(id string, cfg *PropConfig, opts checkOpts, res *checkResult,
 			boundedDetails = append(boundedDetails, map[string]string{"name": o.Label, "bound": o.Detail, "status": map[bool]string{true: "held on the whole family", false: "FAILED"}[o.ok()], "output": trunc(o.Model, 600)})
 		}
 	}
+	// lemma layer: ghost lemma functions (sentences of the property proved over contracts only) and the ghost
+	// transitions they use, with the operations whose contracts were shown to imply each ghost clause
+	lemmaLayer := map[string]interface{}{}
+	{
+		var lemmaFns []string
+		for _, f := range cfg.Functions {
+			if strings.Contains(f, ".lemma") {
+				lemmaFns = append(lemmaFns, f)
+			}
+		}
+		var ghosts []map[string]interface{}
+		for _, r := range cfg.Refines {
+			ops := map[string]bool{}
+			for _, o := range all {
+				if o.Kind == "refines" && strings.HasPrefix(o.Label, r.Ghost[strings.LastIndex(r.Ghost, ".")+1:]+":") {
+					ops[o.Fn] = true
+				}
+			}
+			var opl []string
+			for k := range ops {
+				opl = append(opl, k)
+			}
+			sort.Strings(opl)
+			ghosts = append(ghosts, map[string]interface{}{"ghost_transition": r.Ghost, "operations_shown_to_refine_it": opl, "exempt_closed_by_caller_inventories": r.Exempt, "reason": r.Reason})
+		}
+		if len(lemmaFns) > 0 || len(ghosts) > 0 {
+			lemmaLayer["lemma_functions"] = lemmaFns
+			lemmaLayer["ghost_transitions"] = ghosts
+			lemmaLayer["note"] = "a lemma function is ghost code under the build tag verif; its callees are represented by their contracts only, so its postcondition is a lemma over those contracts; a ghost transition is a trusted function whose clauses every listed operation's contract implies (obligation kind refines)"
+		}
+	}
 	level := cfg.Level
 	if level == "" {
 		level = "proof"
@@ -661,6 +692,7 @@ func writeEvidence(id string, cfg *PropConfig, opts checkOpts, res *checkResult,
 			"undecided":                res.undecided,
 			"known_findings":           res.knownLines,
 			"panic_sites_covered_by_submission_dry_run": dryRunCovered,
+			"lemma_layer":         lemmaLayer,
 			"samples":             samples,
 			"load_s":              round3(prog.LoadS),
 			"explanation":         explanationFor(level),
